@@ -1506,6 +1506,27 @@ def _ancestors(n):
 
 # ----------------------------------------------------------------------
 
+def _guard(rid, fn, *args):
+    """an unrecognised shape must surface as a named analysis error, never
+    as a traceback"""
+    import traceback
+    try:
+        return fn(*args)
+    except AnalysisError:
+        raise
+    except ModelRaise as e:
+        raise AnalysisError(f"{rid}: interpreted code raises {e} outside a "
+                            "modelled scenario")
+    except Exception as e:
+        tb = traceback.extract_tb(e.__traceback__)
+        mine = [f for f in tb if f.filename.endswith(("C11.py",
+                                                      "lib_C11.py"))]
+        at = f"{mine[-1].name}:{mine[-1].lineno}" if mine else "?"
+        raise AnalysisError(
+            f"{rid}: unrecognised code shape ({type(e).__name__}: {e}) in "
+            f"{fn.__name__} at {at}")
+
+
 def run(ctx):
     repo = ctx.repo
     ctx.rule("R11.1", "every mutation route of ConfigurationDict / "
@@ -1533,12 +1554,13 @@ def run(ctx):
                "get_config_value_type"):
         if not isinstance(getattr(ml, fn, None), Func):
             raise AnalysisError(f"{ML}: {fn} vanished")
-    setitem, verify, bound_k = build_config_model(repo, mc, ml)
-    r111(ctx, repo)
-    storable = r112(ctx, repo, mp, mc, ml, setitem)
-    r113(ctx, repo, mp, mc, setitem, verify, bound_k)
-    r114(ctx, repo, setitem, mc, ml)
-    r115(ctx, repo, mp, mc, ml, storable)
+    setitem, verify, bound_k = _guard("model", build_config_model, repo,
+                                      mc, ml)
+    _guard("R11.1", r111, ctx, repo)
+    storable = _guard("R11.2", r112, ctx, repo, mp, mc, ml, setitem)
+    _guard("R11.3", r113, ctx, repo, mp, mc, setitem, verify, bound_k)
+    _guard("R11.4", r114, ctx, repo, setitem, mc, ml)
+    _guard("R11.5", r115, ctx, repo, mp, mc, ml, storable)
     ctx.model = (mp, mc, ml)
     ctx.evals = ctx.stats.pop("_evals")
 
